@@ -536,6 +536,16 @@ func check(prop, tier string, seed uint64, procs int, scale float64, onlyClass s
 	if tier == "thorough" {
 		detEvery = 100
 	}
+	if onlyClass != "" {
+		found := false
+		for _, cls := range classes {
+			found = found || cls.Name == onlyClass
+		}
+		if !found {
+			fmt.Printf("HARNESS-ERROR: property %s has no class %q\n", prop, onlyClass)
+			return 2
+		}
+	}
 	for _, cls := range classes {
 		if onlyClass != "" && cls.Name != onlyClass {
 			continue
